@@ -73,6 +73,82 @@ func pingConn(conn *grpc.ClientConn, timeout time.Duration) (string, error) {
 	return strings.TrimPrefix(resp.Msg, "pong-"), nil
 }
 
+// ---------------------------------------------------------------- C09 (gRPC broker, multiplexed): liveness histories
+
+// runMuxLiveness: on one multiplexed pair, a history of unmatched / late peers on id 70.., then a fresh matched pair
+// (accept first) in the same direction; role "server": the plugin accepts and the host dials, "client": the reverse.
+//   kind "dial-unmatched":        Dial(x)+call with nobody accepting                       -> error within the window
+//   kind "dial-then-late-accept": the same, and AFTER the dial has given up the other side accepts x (nobody dials again)
+//   kind "accept-unmatched":      Accept(x) with nobody dialling
+func runMuxLiveness(role, kind string) (impl, pred string) {
+	p, err := newGrpcPair(true)
+	if err != nil {
+		return "setup-error", "FAIL:setup"
+	}
+	defer p.close()
+	acceptor, dialler := p.plug, p.host
+	if role == "client" {
+		acceptor, dialler = p.host, p.plug
+	}
+	serve := func(id uint32) {
+		go func() {
+			defer func() { recover() }()
+			servePingPong(acceptor, id)
+		}()
+	}
+	first := "-"
+	switch kind {
+	case "dial-unmatched", "dial-then-late-accept":
+		t0 := time.Now()
+		ans, conn, err := pingKeep(dialler, 70, 7*time.Second)
+		if conn != nil {
+			conn.Close()
+		}
+		first = "err"
+		if err == nil && ans != "" {
+			first = "ok"
+		}
+		if time.Since(t0) > 9*time.Second {
+			first = "slow"
+		}
+		if kind == "dial-then-late-accept" {
+			serve(70)
+			time.Sleep(500 * time.Millisecond)
+		}
+	case "accept-unmatched":
+		serve(71)
+		time.Sleep(300 * time.Millisecond)
+	}
+	// the fresh pair
+	serve(80)
+	time.Sleep(150 * time.Millisecond)
+	ans, conn, err := pingKeep(dialler, 80, 8*time.Second)
+	if conn != nil {
+		defer conn.Close()
+	}
+	fresh := "ok"
+	if err != nil || ans != "80" {
+		fresh = "failed"
+	}
+	mainOK := true
+	if err, hung, pp := withTimeout(5*time.Second, p.client.Ping); err != nil || hung || pp != nil {
+		mainOK = false
+	}
+	impl = fmt.Sprintf("first=%s fresh=%s main=%s", first, fresh, b01(mainOK))
+	pred = "ok"
+	switch {
+	case first == "ok":
+		pred = "FAIL:unmatched-dial-succeeded"
+	case first == "slow":
+		pred = "FAIL:unmatched-dial-not-bounded"
+	case fresh != "ok":
+		pred = "FAIL:fresh-pair-failed-after-" + kind
+	case !mainOK:
+		pred = "FAIL:main-connection-dead"
+	}
+	return impl, pred
+}
+
 // ---------------------------------------------------------------- C07: timed histories, no multiplexing
 
 func runGrpcHistory(h *history) ([]opResult, error) {
